@@ -51,6 +51,9 @@ CHECKS['C01'] = dict(cat='exploration', tech='bounded-exhaustive enumeration of 
 CHECKS['C08'] = dict(cat='exploration', tech='exhaustive differential sweep of probe documents x terminator styles x buffer alignments on the real parser; oracle = LF-only unpadded parse of the same probe',
       text='26 probe documents (every token kind, CR LF / multi-byte / surrogate constructs, triple quotes, text-field protocols, CIF 1.1 forms, 11 defect probes whose error codes and line numbers are compared too) are rendered with LF, CR LF, CR and mixed terminators and preceded by comment padding so that every byte of the probe falls on a 4096-byte read-buffer seam, at base offsets 0, 130000 (crossing the first compaction of the 131200-unit scan buffer) and 258000, and so that the end of input falls in every part of the final block; thorough: every padding 0..4111. Content and the (error code, line) sequence must equal those of the LF-only unpadded rendering.',
       note='Single tokens larger than the scan buffer are not swept here (covered for memory safety by C03/C16). Column numbers are not compared.', ref='C08')
+CHECKS['C11'] = dict(cat='exploration', tech='exhaustive enumeration of the finite option x signature x encoding table on the real cif_parse; decision table transcribed from cif.h plus a differential reference parse with the dialect forced',
+      text='The full cross product of 6 version-comment forms x BOM x 7 prefer_cif2 values x 6 stream encodings x force_default_encoding x 4 default_encoding_name values x 6 dialect-sensitive probes (about 22 000 parses). For every cell where cif.h determines the dialect and the decoder (and that decoder can decode the bytes) the parse must read exactly like the decoded text parsed with that dialect forced, CIF_WRONG_ENCODING must be reported exactly for CIF 2.0 content decoded by a non-UTF-8 decoder, and a byte-order mark must be accepted only as the first character of CIF 2.0 text.',
+      note='Cells the documentation leaves open (UTF-16/32 without signature and without force, a version comment not followed by whitespace, bytes the prescribed decoder cannot decode) are checked for totality only. The system default converter is what ICU reports after the executor pins it.', ref='C11')
 NOT_APPLICABLE = {}
 
 def main():
